@@ -3,6 +3,7 @@ package main
 import (
 	"encoding/json"
 	"fmt"
+	"io"
 	"os"
 	"strconv"
 	"strings"
@@ -28,12 +29,23 @@ type sharedReader struct {
 	off   int
 	draws map[int][]byte // drawer id -> bytes drawn, in order
 	who   func() int
+	fail  map[int]bool // drawer id -> its next read delivers 3 bytes and fails
 }
 
 func (s *sharedReader) Read(p []byte) (int, error) {
 	s.mu.Lock()
 	defer s.mu.Unlock()
 	id := s.who()
+	if s.fail[id] && len(p) > 3 {
+		// the source breaks down in the middle of this drawer's call (once)
+		delete(s.fail, id)
+		for i := 0; i < 3; i++ {
+			p[i] = streamByte(s.off + i)
+		}
+		s.draws[id] = append(s.draws[id], p[:3]...)
+		s.off += 3
+		return 3, io.ErrUnexpectedEOF
+	}
 	for i := range p {
 		p[i] = streamByte(s.off + i)
 	}
@@ -72,6 +84,12 @@ func nsOp(m *ref.Model, sr *sharedReader, id int, op string) string {
 	}
 	sr.mu.Lock()
 	before := len(sr.draws[id])
+	if len(parts) > 3 && parts[3] == "F" {
+		if sr.fail == nil {
+			sr.fail = map[int]bool{}
+		}
+		sr.fail[id] = true
+	}
 	sr.mu.Unlock()
 	var s string
 	var err error
